@@ -174,18 +174,18 @@ Inductive sres :=
 
 Record sys_state := {
   memo : option nat;
-  last1 : amap (list Q);            (* _last_cpu_times *)
-  lastp1 : amap (list (list Q));    (* _last_per_cpu_times *)
-  last2 : amap (list Q);            (* _last_cpu_times_2 *)
-  lastp2 : amap (list (list Q)) }.  (* _last_per_cpu_times_2 *)
+  last1 : amap (list Q);            (* _last.cpu_times       (per calling thread) *)
+  lastp1 : amap (list (list Q));    (* _last.per_cpu_times *)
+  last2 : amap (list Q);            (* _last.cpu_times_2 *)
+  lastp2 : amap (list (list Q)) }.  (* _last.per_cpu_times_2 *)
 Definition sys_init : sys_state :=
   {| memo := None; last1 := []; lastp1 := []; last2 := []; lastp2 := [] |}.
 
 (* the state right after "import psutil" executed by thread [mt] while /proc/stat read [c0]:
      _pslinux:  set_scputimes_ntuple("/proc")                         (memoised layout)
-     __init__:  try: _last_cpu_times = {ident: cpu_times()}           except Exception: {}
-                try: _last_per_cpu_times = {ident: cpu_times(percpu=True)}   except Exception: {}
-                _last_cpu_times_2 = _last_cpu_times.copy(); _last_per_cpu_times_2 = _last_per_cpu_times.copy() *)
+     __init__:  _last = _LastCpuTimes()      (storage of the importing thread)
+                try: _last.cpu_times = _last.cpu_times_2 = cpu_times()                       except Exception: pass
+                try: _last.per_cpu_times = _last.per_cpu_times_2 = cpu_times(percpu=True)   except Exception: pass *)
 Definition sys_import (clk : positive) (mt : Z) (c0 : bytes) : sys_state :=
   let nf := nf_of c0 in
   let m1 := match cpu_times clk nf c0 with Val s => [(mt, s)] | _ => [] end in
@@ -229,6 +229,23 @@ Fixpoint run (clk : positive) (st : sys_state) (evs : list event) : list (outcom
   match evs with
   | [] => []
   | e :: r => let '(st', o) := step clk st e in o :: run clk st' r
+  end.
+
+(* thread lifetime.  As of /repo d2712e2 the previous samples live in thread-local storage
+   (class _LastCpuTimes(threading.local): cpu_times, per_cpu_times, cpu_times_2,
+   per_cpu_times_2): the key [e_tid] of the four maps below is the calling THREAD itself -- its
+   storage is created empty when the thread first calls, primed for the importing thread, and
+   goes away with the thread (never observable: a thread identity is never reused).  Before
+   d2712e2 the same maps were dicts keyed by thread IDENT, which the OS hands to a new thread;
+   that legacy reading is obtained by running [step] with idents as keys.  Either way psutil
+   has no hook on a thread starting or exiting, an ident being handed on, or a
+   threading.Thread object being garbage-collected: none of these is an event for the code.
+   A history is a list of [Some call] / [None = lifetime event]. *)
+Fixpoint run_l (clk : positive) (st : sys_state) (l : list (option event)) : list (outcome sres) :=
+  match l with
+  | [] => []
+  | None :: r => run_l clk st r
+  | Some e :: r => let '(st', o) := step clk st e in o :: run_l clk st' r
   end.
 
 (* ------------------------------------------------------------ Process.cpu_percent *)
